@@ -126,11 +126,12 @@ Proof.
 Qed.
 Print Assumptions C01_empty_vlen_refuted.
 
-(* non-vacuity of the total statement: the example graph's axis property holds its values; a property with an empty name,
-   a var-length property of mixed rank and an empty var-length property are not storable *)
+(* non-vacuity of the total statement: the example graph's axis property holds its values; a float16 var-length property is
+   storable; a float16 element beside a float32 element, an empty name, mixed ranks and an empty var-length property are not *)
 Example C01_total_nonvacuous :
   axes_have_data ex_g ex_md /\
-  storable "v" (mkprop (PVlen [Build_varr DF16 [1%nat] [7]%Z; Build_varr DF32 [0%nat] []]) None) /\
+  storable "v" (mkprop (PVlen [Build_varr DF16 [1%nat] [7]%Z; Build_varr DF16 [0%nat] []]) None) /\
+  ~ storable "v" (mkprop (PVlen [Build_varr DF16 [1%nat] [7]%Z; Build_varr DF32 [0%nat] []]) None) /\
   ~ storable "" (mkprop (PFixed (mkarr DI8 [1%nat] [1]%Z)) None) /\
   ~ storable "v" (mkprop (PVlen [Build_varr DI8 [1%nat] [7]%Z; Build_varr DI8 [1%nat; 1%nat] [8]%Z]) None) /\
   ~ storable "v" (mkprop (PVlen []) None).
@@ -140,6 +141,7 @@ Proof.
     inversion Hps; subst ps; clear Hps. destruct Hin as [<-|[]]. cbn [ax_name] in Hinp.
     destruct Hinp as [E|[E|[E|[]]]]; inversion E; subst; reflexivity.
   - split; [split; [discriminate | cbn; split; [reflexivity | repeat constructor]]|].
+    split; [intros [_ [_ H]]; cbn in H; inversion H as [|? ? [Hd _] _]; discriminate|].
     split; [intros [H _]; apply H; reflexivity|].
     split; [intros [_ [_ H]]; cbn in H; inversion H as [|? ? [_ Hr] _]; discriminate | intros [_ []]].
 Qed.
